@@ -170,6 +170,84 @@ func generate(w *World, cs *Contracts, ms *ModSets, o runOpts) ([]*Obligation, [
 			os.WriteFile(filepath.Join(verifDir, "out", "ivl", sanitize(key)+".smt2"), []byte(strings.Join(vc.cmds, "\n")), 0o644)
 		}
 	}
+	// writer closure of type invariants: invariants are assumed at entry of functions (holds) under visible-state
+	// semantics, so every function that directly writes a field the invariant mentions must itself be under a
+	// contract that re-establishes the invariant (constructors writing a fresh object are exempt)
+	for _, tkey := range sortedKeys(cs.TypeInvs) {
+		ti := cs.TypeInvs[tkey]
+		props := ti.Props
+		if len(props) == 0 {
+			for _, c := range ti.Clauses {
+				props = append(props, c.Props...)
+			}
+		}
+		if ms == nil || o.only != "" {
+			continue
+		}
+		serves := invServes(cs, tkey, o.property)
+		if !serves {
+			continue
+		}
+		parts := strings.SplitN(tkey, ".", 2)
+		fields := map[string]bool{}
+		for _, c := range ti.Clauses {
+			collectFields(c.E, ti.Var, fields)
+		}
+		var missing []string
+		for _, f := range sortedKeysB(fields) {
+			comp := "F_" + parts[0] + "_" + parts[1] + "_" + f
+			for _, wkey := range ms.writers(comp) {
+				spec := cs.Funcs[wkey]
+				if spec == nil {
+					// closures inside a function under contract are covered by the enclosing function's own obligations
+					if i := strings.Index(wkey, "$"); i > 0 && cs.Funcs[wkey[:i]] != nil {
+						continue
+					}
+					missing = append(missing, wkey+" writes "+parts[1]+"."+f+" without a contract")
+					continue
+				}
+				ok := false
+				for _, e := range spec.Ensures {
+					if strings.Contains(e.Text, "inv(") || strings.Contains(e.Text, "inv_") {
+						ok = true
+					}
+				}
+				if !ok && spec.Modes["invhelper"] != "" {
+					// a helper that runs inside its callers' critical section: every caller must re-establish the invariant
+					callers, _ := ms.otherCallers(wkey, nil)
+					ok = len(callers) > 0
+					for _, ck := range callers {
+						cspec := cs.Funcs[ck]
+						good := false
+						if cspec != nil {
+							for _, e := range cspec.Ensures {
+								if strings.Contains(e.Text, "inv(") || strings.Contains(e.Text, "inv_") {
+									good = true
+								}
+							}
+						}
+						if !good {
+							ok = false
+							missing = append(missing, wkey+" (invariant helper) is called from "+ck+", which does not re-establish the invariant")
+						}
+					}
+				}
+				if !ok && spec.Trusted == "" {
+					missing = append(missing, wkey+" writes "+parts[1]+"."+f+" but its contract does not re-establish the invariant")
+				}
+			}
+		}
+		rep := &FuncReport{Key: "writers of invariant " + tkey}
+		reps = append(reps, rep)
+		ob := &Obligation{Name: tkey + ":inv.writers", Kind: "writers", Func: tkey, Goal: "true", Props: []string{o.property},
+			Text:   "every function that writes a field mentioned by the invariant of " + tkey + " is under a contract that re-establishes it",
+			Result: &SolveResult{Status: "unsat", Backend: "static-scan"}}
+		if len(missing) > 0 {
+			ob.Result = &SolveResult{Status: "sat", Backend: "static-scan", Output: strings.Join(missing, "; ")}
+		}
+		obls = append(obls, ob)
+		rep.Obligations = 1
+	}
 	// ownership declarations: every store into a unique field must store an object created in the same function
 	for _, ud := range cs.Uniques {
 		if !hasProp(ud.Props, o.property) || o.only != "" {
@@ -519,4 +597,55 @@ func promisesFresh(spec *FuncSpec) bool {
 		}
 	}
 	return false
+}
+
+// invServes: some function contract serving the property uses the invariant of type tkey (holds/requires/ensures).
+func invServes(cs *Contracts, tkey, prop string) bool {
+	short := tkey[strings.Index(tkey, ".")+1:]
+	for _, spec := range cs.Funcs {
+		if !hasProp(spec.Props, prop) || !strings.HasPrefix(spec.Key, tkey[:strings.Index(tkey, ".")+1]) {
+			continue
+		}
+		for _, cl := range append(append(append([]*Clause{}, spec.Holds...), spec.Requires...), spec.Ensures...) {
+			if strings.Contains(cl.Text, "inv(") || strings.Contains(cl.Text, "inv_") {
+				// the clause is about a value of this type if the function's receiver/params mention it: approximate by header text
+				if strings.Contains(spec.Header, "*"+short) || strings.Contains(spec.Header, short+")") {
+					return true
+				}
+			}
+		}
+	}
+	return false
+}
+
+// collectFields gathers the first-level fields of the invariant variable that an expression reads.
+func collectFields(e Expr, v string, out map[string]bool) {
+	switch x := e.(type) {
+	case *ESel:
+		if id, ok := x.X.(*EIdent); ok && id.Name == v {
+			out[x.Sel] = true
+		}
+		collectFields(x.X, v, out)
+	case *EIndex:
+		collectFields(x.X, v, out)
+		collectFields(x.I, v, out)
+	case *ECall:
+		for _, a := range x.Args {
+			collectFields(a, v, out)
+		}
+	case *EUn:
+		collectFields(x.X, v, out)
+	case *EBin:
+		collectFields(x.L, v, out)
+		collectFields(x.R, v, out)
+	case *ECond:
+		collectFields(x.C, v, out)
+		collectFields(x.A, v, out)
+		collectFields(x.B, v, out)
+	case *EQuant:
+		collectFields(x.Body, v, out)
+	case *ELet:
+		collectFields(x.Val, v, out)
+		collectFields(x.Body, v, out)
+	}
 }
